@@ -748,6 +748,11 @@ func vtC14Gen(r *rand.Rand, i int) (string, []int64) {
 	in = append(in, amode)
 	if amode >= 2 && amode <= 4 {
 		how := r.Intn(6) // how the foreign amounts relate to the declared ones
+		if amode == 3 && r.Intn(2) == 0 {
+			// the annotation is a SUPERSET of what the spec declares now: one request / limit entry was dropped from
+			// the spec, every remaining amount is equal (the webhook must still rewrite the annotation)
+			how = 6
+		}
 		allPresent := r.Intn(5) < 3
 		clampTo := func(v, cap int64) int64 {
 			if v > cap {
@@ -778,6 +783,24 @@ func vtC14Gen(r *rand.Rand, i int) (string, []int64) {
 				}
 				e[1], e[3] = vtC14Amount(r, st, cpuCap), vtC14Amount(r, st, cpuCap)
 				e[5], e[7] = vtC14Amount(r, st, memCap), vtC14Amount(r, st, memCap)
+			case 6: // superset: the annotation keeps the full record, the spec loses one declared entry
+				var set []int
+				for k := 0; k < 4; k++ {
+					if d[2*k] != 0 {
+						set = append(set, k)
+					}
+				}
+				if len(set) >= 2 {
+					k := set[r.Intn(len(set))]
+					if r.Intn(3) != 0 { // prefer dropping a limit
+						for _, c := range set {
+							if c == 1 || c == 3 {
+								k = c
+							}
+						}
+					}
+					d[2*k] = 0
+				}
 			case 3: // identical to the spec (hand-written but in sync)
 			case 5: // limits dropped or zeroed in the annotation
 				if r.Intn(2) == 0 {
@@ -786,8 +809,8 @@ func vtC14Gen(r *rand.Rand, i int) (string, []int64) {
 					e[3], e[7] = 0, 0
 				}
 			}
-			present := allPresent || r.Intn(10) < 7
-			if r.Intn(25) == 0 { // an entry that names no resource at all ("c00": {})
+			present := allPresent || r.Intn(10) < 7 || how == 6
+			if how != 6 && r.Intn(25) == 0 { // an entry that names no resource at all ("c00": {})
 				present = true
 				e[0], e[2], e[4], e[6] = 0, 0, 0, 0
 			}
